@@ -50,7 +50,7 @@ func gen(seed int64, tier string, idx int) *pipe.Scenario {
 	if g.R.Intn(6) == 0 {
 		sc.RecMaxRetries = -1 // infinite
 	}
-	sc.RecWindowUs = 400000
+	sc.RecWindowUs = 120_000_000 // far longer than any run: the attempt counter never decays inside a run
 	at := 30 + g.R.Intn(120)
 	d0 := &sc.Topo.Dests[0]
 	switch c.name {
@@ -303,7 +303,13 @@ func judge(out *pipe.Outcome, ix *pipe.Index) pipe.Verdict {
 				}
 			}
 			if firstBad >= 0 {
-				add("fatal-cause-treated-as-transient", fmt.Sprintf("fatal cause %q put the pipeline into Recovering (status history %v)", cause, seq), firstBad)
+				cl := "fatal-cause-treated-as-transient"
+				if sc.Engine == "v2" && len(sc.Topo.Sources) > 1 {
+					// arch-v2 with several sources: the sibling worker's (non-fatal) error can
+					// reach the tomb before the root cause; kept apart from the single-source case
+					cl = "fatal-cause-treated-as-transient-multi-source"
+				}
+				add(cl, fmt.Sprintf("fatal cause %q put the pipeline into Recovering (status history %v)", cause, seq), firstBad)
 			} else if restarts > 0 {
 				add("restart-after-fatal", fmt.Sprintf("%d automatic restarts after fatal cause %q", restarts, cause))
 			}
